@@ -138,12 +138,17 @@ FinishApplyX(op, t) ==
     ELSE FinishApply(op, t)
 
 (* ---------------- commute incl. PartialJoin ---------------- *)
+\* TRUE: the code after the fix of finding F20 (a companion configuration overrides it)
+FixF20 == TRUE
 PJoinReq(op) == (ReqP(op.p) \ Cols(op.fixed)) \cup (IF op.res THEN op.common ELSE {})
 
 CommuteX(new, curNode) ==
     LET cur == curNode.op
         tc == Cols(curNode.t)
     IN IF new.o # "pjoin" THEN Commute(new, cur, tc)
+       \* (fix of finding F20) columns the new target shares with the fixed operand beyond the
+       \* equality constraint would be replaced before the operations in between read them
+       ELSE IF FixF20 /\ new.res /\ ((tc \cap Cols(new.fixed)) \ new.common) # {} THEN Refuse(cur)
        ELSE IF cur.o = "dedup" THEN Refuse(cur)
        ELSE IF cur.o = "proj" THEN Commutator(new, Proj(Cols(curNode) \cup Cols(new.fixed)), TRUE)
        ELSE IF ~(PJoinReq(new) \subseteq tc) THEN Refuse(cur)
